@@ -7,7 +7,7 @@ use proptest::collection::vec;
 use proptest::prelude::*;
 use proptest::sample::select;
 
-type BS<T> = BoxedStrategy<T>;
+pub type BS<T> = BoxedStrategy<T>;
 
 // ---------------------------------------------------------------------------------------------
 // scalars
@@ -351,8 +351,8 @@ pub fn small_leaf(inv: bool, custom: bool) -> BS<PacketSpec> {
 }
 
 pub fn how() -> BS<crate::drive::How> {
-    (any::<bool>(), any::<bool>(), prop_oneof![4 => Just(false), 1 => Just(true)])
-        .prop_map(|(fb_owned, wrap, single_compound)| crate::drive::How { fb_owned, wrap, single_compound })
+    (any::<bool>(), any::<bool>(), prop_oneof![4 => Just(false), 1 => Just(true)], prop_oneof![2 => Just(false), 1 => Just(true)])
+        .prop_map(|(fb_owned, wrap, single_compound, owned)| crate::drive::How { fb_owned, wrap, single_compound, owned })
         .boxed()
 }
 
